@@ -821,7 +821,14 @@ def enumerate_paths(prog, body, variant=None, entry=0, max_visits=2, inline=1, l
                     events = events + [("eff", body.stmt_effects[(bid, i)])]
             t = blk["term"]
             k = t["k"]
-            if k == "goto" or k == "drop":
+            if k == "drop":
+                dl = t["p"]["l"]
+                dty = body.locals[dl]["ty"]
+                if "Guard<" in dty and not t["p"]["p"]:
+                    events = events + [("dropguard", dl, dty)]
+                bid = t["succ"][0]
+                continue
+            if k == "goto":
                 bid = t["succ"][0]
                 continue
             if k == "return":
